@@ -8,7 +8,7 @@ hook for T succeeds in one mode exactly when it succeeds in the other.
 from __future__ import annotations
 
 from harness import framework, gen, lean, streams, terms
-from harness.datapath import Session, cfg_name, reply_canon, reply_kind
+from harness.datapath import Session, cfg_name, reply_canon, reply_kind, leaf_iterated
 
 BASES = [
     {"gen": True, "tuple": False, "forbid": False},
@@ -61,7 +61,7 @@ def run(chk: framework.Check):
     drv = lean.Driver()
     n_worlds = 400 if chk.tier == "quick" else 4000
     corr_fail = []
-    for G, S, w in streams.worlds(chk, drv, n_worlds, unions=True, nt=True):
+    for G, S, w in streams.worlds(chk, drv, n_worlds, unions=True, nt=True, coercible=True):
         # "creating the hook for T succeeds in one mode exactly when in the other": every class of the world, not only
         # the ones the type stream happens to draw (hook creation is where template-specific generation code runs)
         for ci, c in enumerate(w["classes"]):
@@ -107,6 +107,8 @@ def run(chk: framework.Check):
                              "ty:" + (ty if isinstance(ty, str) else ty[0]))
                     if has_union:
                         chk.note("union-reachable:" + kind + ":" + outcome(rd)[0])
+                    if gen.has_enum_lit(w, ty):
+                        chk.note("literal-with-enum-members-reachable:" + kind + ":" + outcome(rd)[0])
                     od, of = outcome(rd), outcome(rf)
                     if "unrep" in (od[0], of[0]):
                         if od[0] != of[0]:
@@ -121,6 +123,9 @@ def run(chk: framework.Check):
                     for cfg, ri in ((cd, rd), (cf, rf)):
                         rm = S.model_st(cfg, ty, p)
                         km = reply_kind(rm)
+                        if leaf_iterated(w, cfg, ty, p):
+                            # a str / bytes payload at an iterating position (iterated into characters / ints)
+                            chk.note("str-bytes-iterated:" + ("unmodelled" if km == "unmodelled" else "compared:" + outcome(ri)[0]))
                         if km == "unmodelled":
                             chk.unmodelled += 1
                             continue
